@@ -30,6 +30,87 @@ var coreTypes = map[string]reflect.Type{
 	"StorageUsed":        reflect.TypeOf(tlb.StorageUsed{}),
 	"StorageInfo":        reflect.TypeOf(tlb.StorageInfo{}),
 	"HashUpdate":         reflect.TypeOf(tlb.HashUpdate{}),
+	// spec/schemas/block_more.tlb
+	"Account":             reflect.TypeOf(tlb.Account{}),
+	"AccountStorage":      reflect.TypeOf(tlb.AccountStorage{}),
+	"AccountState":        reflect.TypeOf(tlb.AccountState{}),
+	"ShardAccount":        reflect.TypeOf(tlb.ShardAccount{}),
+	"DepthBalanceInfo":    reflect.TypeOf(tlb.DepthBalanceInfo{}),
+	"IntermediateAddress": reflect.TypeOf(tlb.IntermediateAddress{}),
+	"MsgMetadata":         reflect.TypeOf(tlb.MsgMetadata{}),
+	"MsgEnvelope":         reflect.TypeOf(tlb.MsgEnvelope{}),
+	"InMsg":               reflect.TypeOf(tlb.InMsg{}),
+	"OutMsg":              reflect.TypeOf(tlb.OutMsg{}),
+	"ImportFees":          reflect.TypeOf(tlb.ImportFees{}),
+	"ExtBlkRef":           reflect.TypeOf(tlb.ExtBlkRef{}),
+	"BlkMasterInfo":       reflect.TypeOf(tlb.BlkMasterInfo{}),
+	"ShardIdent":          reflect.TypeOf(tlb.ShardIdent{}),
+	"GlobalVersion":       reflect.TypeOf(tlb.GlobalVersion{}),
+}
+
+// clampDomain keeps a generated value inside the domain BOTH the Go representation and block.tlb can express, where
+// the Go field type is wider than the schema's: shard_pfx_bits:(#<= 60) in a Uint6, use_dest_bits:(#<= 96) in a Uint7,
+// split_depth:(#<= 30) in a Uint5, next_workchain:int32 in a uint32 (see the report: values >= 2^31 there are negative
+// workchains read as large positive numbers). MsgAddressInt positions get an internal address.
+func clampDomain(v reflect.Value, depth int) {
+	if depth > 40 || !v.IsValid() {
+		return
+	}
+	switch v.Kind() {
+	case reflect.Pointer:
+		if !v.IsNil() {
+			clampDomain(v.Elem(), depth+1)
+		}
+		return
+	case reflect.Struct:
+	default:
+		return
+	}
+	if !v.CanAddr() {
+		return
+	}
+	switch x := v.Addr().Interface().(type) {
+	case *tlb.ShardIdent:
+		x.ShardPfxBits %= 61
+	case *tlb.DepthBalanceInfo:
+		x.SplitDepth %= 31
+	case *tlb.IntermediateAddress:
+		x.IntermediateAddressRegular.UseDestBits %= 97
+	case *tlb.OutMsg:
+		x.MsgExportDeqShort.NextWorkchain &= 0x7fffffff
+	case *tlb.TransactionDescr:
+		// the transcription has trans_ord / trans_storage / trans_tick_tock (what the chain produces); the split / merge
+		// constructors (the Go struct keeps their prepare_transaction as an untyped cell) are outside it
+		switch x.SumType {
+		case "TransSplitPrepare", "TransSplitInstall", "TransMergePrepare", "TransMergeInstall":
+			*x = tlb.TransactionDescr{SumType: "TransStorage"}
+			x.TransStorage.StoragePh.StatusChange = tlb.AccStatusChangeUnchanged
+		}
+	case *tlb.ExistedAccount:
+		intAddr(&x.Addr)
+	case *tlb.MsgMetadata:
+		intAddr(&x.InitiatorAddr)
+	case *boc.Cell, *tlb.Any, *boc.BitString:
+		return
+	}
+	t := v.Type()
+	for i := 0; i < v.NumField(); i++ {
+		if t.Field(i).IsExported() {
+			clampDomain(v.Field(i), depth+1)
+		}
+	}
+}
+
+// intAddr: a MsgAddressInt position (addr_std / addr_var only).
+func intAddr(a *tlb.MsgAddress) {
+	if a.SumType == "AddrNone" || a.SumType == "AddrExtern" || a.SumType == "" {
+		var z tlb.MsgAddress
+		z.SumType = "AddrStd"
+		z.AddrStd.WorkchainId = -1
+		z.AddrStd.Address[0] = 0x5a
+		z.AddrStd.Address[31] = 0xc3
+		*a = z
+	}
 }
 
 func repo() string {
@@ -131,8 +212,12 @@ func DriveC04(w *ev.Writer, o Opts) {
 				continue
 			}
 			v := g.New(t)
+			clampDomain(v, 0)
 			c, st, msg := marshal(v.Interface())
 			dv := dumpDictBits(v)
+			if cs := canon(dv); strings.Contains(cs, `"nil":true`) || strings.Contains(cs, `"c":""`) {
+				continue // the generator stopped at its depth limit and left a constructor / enumeration empty: not a value of the type
+			}
 			m := ev.M{"k": "ENC", "type": name, "v": dv, "enc": st, "tree": "", "msg": msg}
 			if st == "ok" {
 				m["tree"] = tlbx.TreeText(c)
